@@ -91,6 +91,71 @@ def run(tier, replay=None):
     else:
         print("NOTE the first mrp had finished before the second started; the two-process lock test did not apply")
     c1.cleanup()
+    # ---- two mrp processes started on a new pipestance at the same moment: both find the
+    # directory empty; one is held there (it stops itself) until the other has created the
+    # pipestance, taken the lock and started jobs
+    import signal
+    pw2 = os.path.join(wd, "proc2")
+    cp = procdrv.Cycle(root, os.path.join(wd, "proc2probe"), prog, sem["chain"], "simP", delay_ms=5)
+    cp.run(timeout=60)
+    k_inv = next((e["seq"] for e in cp.events() if e.get("ev") == "InvokeChecked"), 0)
+    cp.cleanup()
+    if not k_inv:
+        raise vlib.Infra("no InvokeChecked event in a run of mrp: the hook is missing")
+    ca = procdrv.Cycle(root, pw2, prog, sem["chain"], "simA", delay_ms=700)
+    outa = {}
+    tha = threading.Thread(target=lambda: outa.update(rc=ca.run(signal_at=(int(k_inv), int(signal.SIGSTOP)), timeout=90)[0]))
+    tha.start()
+    t_wait = time.time()
+    pid_a = None
+    while pid_a is None and time.time() - t_wait < 20:
+        for e in ca.events():
+            if e.get("ev") == "InvokeChecked":
+                pid_a = int(e["w"].split(":")[1])
+        time.sleep(0.05)
+    sim_report = {"first_stopped_after_finding_the_directory_empty": pid_a is not None}
+    if pid_a is None:
+        print("NOTE the simultaneous-start test did not apply: the first mrp did not stop at InvokeChecked")
+        tha.join()
+    else:
+        cb = procdrv.Cycle(root, pw2, prog, sem["chain"], "simB", delay_ms=700)
+        outb = {}
+        thb = threading.Thread(target=lambda: outb.update(rc=cb.run(timeout=90)[0]))
+        thb.start()
+        t_wait = time.time()
+        while not cb.locked() and time.time() - t_wait < 20:
+            time.sleep(0.05)
+        began = False
+        while not began and time.time() - t_wait < 30:
+            began = any(e.get("ev") == "StageBegin" for e in cb.events())
+            time.sleep(0.05)
+        held = cb.locked()
+        os.kill(pid_a, signal.SIGCONT)
+        tha.join()
+        b_alive = thb.is_alive()
+        intact = all(os.path.exists(os.path.join(cb.psdir, f)) for f in ("_lock", "_invocation", "_mrosource"))
+        thb.join()
+        outs_b = cb.top_outs()
+        sim_report.update({"second_held_the_lock": held, "first_exit": outa.get("rc"), "second_alive_when_first_exited": b_alive,
+                           "pipestance_intact_then": intact, "second_exit": outb.get("rc")})
+        if held and b_alive:
+            if outa.get("rc") == 0:
+                viols.append({"key": "C15:lock:simultaneous-start-both-ran",
+                              "what": "two mrp processes started on a new pipestance at the same moment both ran it (exit status 0 for the one that came second to the lock)",
+                              "replay": {"report.json": json.dumps(sim_report)}})
+            if not intact or outb.get("rc") != 0:
+                tail = ""
+                try:
+                    tail = open(os.path.join(pw2, "mrp.out"), errors="replace").read()[-600:].replace("\n", " ")
+                except OSError:
+                    pass
+                viols.append({"key": "C15:lock:simultaneous-start-loser-destroyed-the-pipestance",
+                              "what": "two mrp processes started on a new pipestance at the same moment (both found the directory empty): the one that lost the lock removed files of the pipestance the other holds locked and runs (_lock / _invocation / _mrosource present afterwards: %s; the holder then ended with status %s): %s" % (
+                                  intact, outb.get("rc"), tail),
+                              "replay": {"report.json": json.dumps(sim_report), "program.mro": cb.mro}})
+        else:
+            print("NOTE the simultaneous-start test did not apply: the second mrp was not running when the first continued")
+    ca.cleanup()
     # ---- equivalence
     ps = equivcorpus.pairs(tier)
     if replay:
@@ -170,7 +235,7 @@ def run(tier, replay=None):
                                   "PsLock (2 instances, check-then-write): OneWriter violated by %s - replayed on the real code" % " ; ".join(race_trace)],
         "traces_validated_against_impl": len(ps) + len(lock),
         "pairs": len(ps), "edit_kinds": kinds, "outcomes": counts,
-        "lock_orders_replayed": lock, "two_process_lock_test": proc_report,
+        "lock_orders_replayed": lock, "two_process_lock_test": proc_report, "simultaneous_start_test": sim_report,
         "attach_while_locked_attempts": 2 * len(ps),
         "samples": [{"pair": ps[0]["id"], "model_same": same[ps[0]["id"]], "real": res[ps[0]["id"]]["reattach"]}],
         "known_findings_hit": hit,
